@@ -159,10 +159,10 @@ static void gen_data(unsigned char* p, size_t n, unsigned long long seed) {
     if ((seed >> 40) == 1 && n >= (3u << 20)) {
         /* "ldmjob" data: incompressible bytes with ONE long repetition placed in the 1 MiB chunk c >= 2 of the first job, so that the long-distance
          * matcher of a multi-MiB job meets match-free chunks (not only the first of the job) before a chunk that holds a match */
-        size_t const MB = 1u << 20, jmb = n >> 20, ln = 8192; size_t c = 2 + (size_t)(seed & 0xff) % (jmb - 2 ? jmb - 2 : 1), dst, src;
+        size_t const MiB = 1u << 20, jmb = n >> 20, ln = 8192; size_t c = 2 + (size_t)(seed & 0xff) % (jmb - 2 ? jmb - 2 : 1), dst, src;
         if (c >= jmb) c = jmb - 1;
         for (i = 0; i < n; i++) p[i] = (unsigned char)rnd();
-        dst = c * MB + 300000 + (size_t)((seed >> 8) & 0xffff) * 8 % 600000; src = ((seed >> 24) & 1) ? dst - 150000 : 5000 + (size_t)((seed >> 8) & 0xfff);
+        dst = c * MiB + 300000 + (size_t)((seed >> 8) & 0xffff) * 8 % 600000; src = ((seed >> 24) & 1) ? dst - 150000 : 5000 + (size_t)((seed >> 8) & 0xfff);
         if (dst + ln < n) memcpy(p + dst, p + src, ln);
         return;
     }
